@@ -91,6 +91,9 @@ type Perturb struct {
 	On   bool
 	Seed uint64
 	Pct  int // percent of calls perturbed
+	// AfterGetUs > 0: a Get in a read-only transaction is, for Pct percent of the calls, also followed by a sleep of
+	// up to that many microseconds (a reader descheduled between reading a record and acting on what it read)
+	AfterGetUs int
 }
 
 type Store struct {
@@ -114,6 +117,82 @@ type Store struct {
 
 	totalCalls uint64
 	leaked     int
+
+	// sequential engines: the goroutine that issues the operations. A write transaction begun by any other
+	// goroutine (work an operation left behind for later) is held back until the driver has started holdOps
+	// further operations: a legal schedule (that goroutine just runs late) which makes "the deferred work
+	// meets the next operations" the common case instead of a rare one. Its calls are not charged to the
+	// operation that happens to be running.
+	driver      int64
+	holdOps     int
+	opSeq       uint64
+	released    bool
+	holdCond    *sync.Cond
+	ForeignHeld uint64 // foreign write transactions held back (evidence)
+	ForeignTx   uint64 // transactions begun by a goroutine other than the driver
+}
+
+// goid returns the id of the calling goroutine (monitor bookkeeping only).
+func goid() int64 {
+	var buf [64]byte
+	n := runtime.Stack(buf[:], false)
+	var id int64
+	for _, ch := range buf[len("goroutine "):n] {
+		if ch < '0' || ch > '9' {
+			break
+		}
+		id = id*10 + int64(ch-'0')
+	}
+	return id
+}
+
+// SetDriver declares the calling goroutine the one that issues the operations; write transactions of other
+// goroutines are held back for holdOps operations (0 = not held, only told apart).
+func (s *Store) SetDriver(holdOps int) {
+	s.mu.Lock()
+	s.driver = goid()
+	s.holdOps = holdOps
+	s.released = false
+	if s.holdCond == nil {
+		s.holdCond = sync.NewCond(&s.mu)
+	}
+	s.mu.Unlock()
+}
+
+// ReleaseForeign lets every held transaction go (end of a case, Close).
+func (s *Store) ReleaseForeign() {
+	s.mu.Lock()
+	s.released = true
+	if s.holdCond != nil {
+		s.holdCond.Broadcast()
+	}
+	s.mu.Unlock()
+}
+
+// isForeign reports whether the caller is not the driver; it holds a foreign write transaction back.
+func (s *Store) isForeign(update bool) bool {
+	s.mu.Lock()
+	defer s.mu.Unlock()
+	if s.driver == 0 || goid() == s.driver {
+		return false
+	}
+	atomic.AddUint64(&s.ForeignTx, 1)
+	if update && s.holdOps > 0 && !s.released {
+		atomic.AddUint64(&s.ForeignHeld, 1)
+		until := s.opSeq + uint64(s.holdOps)
+		// watchdog: a helper goroutine the running operation waits for must not be held for ever
+		t := time.AfterFunc(500*time.Millisecond, func() {
+			s.mu.Lock()
+			s.holdCond.Broadcast()
+			s.mu.Unlock()
+		})
+		start := time.Now()
+		for s.opSeq < until && !s.released && time.Since(start) < 500*time.Millisecond {
+			s.holdCond.Wait()
+		}
+		t.Stop()
+	}
+	return true
 }
 
 func Wrap(inner store.Store) *Store {
@@ -135,6 +214,10 @@ func (s *Store) BeginOp(trace bool) {
 	s.op = &OpStats{MutatingTx: map[int]bool{}, IndexCursorKeys: map[string]bool{}}
 	s.trace = trace
 	s.faultCt = 0
+	s.opSeq++
+	if s.holdCond != nil {
+		s.holdCond.Broadcast()
+	}
 }
 
 // EndOp stops accounting and returns the statistics.
@@ -176,6 +259,12 @@ func (s *Store) call(k Kind, tx *Tx, class string) error {
 	s.mu.Lock()
 	defer s.mu.Unlock()
 	var err error
+	if tx != nil && tx.foreign {
+		if tx.dead && k != KRollback {
+			err = ErrInjected
+		}
+		return err
+	}
 	if k == KCommit && s.failCommit && tx != nil && tx.mutated {
 		s.failCommit = false
 		err = ErrInjected
@@ -252,6 +341,22 @@ func (s *Store) maybePerturb() {
 	}
 }
 
+func (s *Store) maybePerturbAfterGet() {
+	p := s.perturb
+	if !p.On || p.AfterGetUs <= 0 {
+		return
+	}
+	n := atomic.AddUint64(&s.pctr, 1)
+	x := (n + p.Seed + 77) * 0x9e3779b97f4a7c15
+	x ^= x >> 29
+	x *= 0xbf58476d1ce4e5b9
+	x ^= x >> 32
+	if int(x%100) >= p.Pct {
+		return
+	}
+	time.Sleep(time.Duration(1+(x>>16)%uint64(p.AfterGetUs)) * time.Microsecond)
+}
+
 // KeyClass classifies a key for coverage evidence only (never for a verdict).
 func KeyClass(key []byte) string {
 	switch {
@@ -269,7 +374,10 @@ func KeyClass(key []byte) string {
 }
 
 func (s *Store) Begin(update bool) (store.Tx, error) {
-	if err := s.call(KBegin, nil, ""); err != nil {
+	foreign := s.isForeign(update)
+	if foreign {
+		atomic.AddUint64(&s.totalCalls, 1)
+	} else if err := s.call(KBegin, nil, ""); err != nil {
 		return nil, err
 	}
 	inner, err := s.inner.Begin(update)
@@ -278,9 +386,9 @@ func (s *Store) Begin(update bool) (store.Tx, error) {
 	}
 	s.mu.Lock()
 	s.nextTx++
-	tx := &Tx{s: s, inner: inner, id: s.nextTx, write: update}
+	tx := &Tx{s: s, inner: inner, id: s.nextTx, write: update, foreign: foreign}
 	s.open[tx.id] = tx
-	if s.op != nil {
+	if s.op != nil && !foreign {
 		s.op.TxBegun++
 	}
 	s.mu.Unlock()
@@ -288,6 +396,7 @@ func (s *Store) Begin(update bool) (store.Tx, error) {
 }
 
 func (s *Store) Close() error {
+	s.ReleaseForeign()
 	return s.inner.Close()
 }
 
@@ -299,6 +408,7 @@ type Tx struct {
 	finished bool
 	dead     bool
 	mutated  bool
+	foreign  bool // begun by a goroutine other than the driver: not charged to the running operation
 	handed   [][]byte // value copies handed out, poisoned at the end of the transaction
 }
 
@@ -317,7 +427,7 @@ func (t *Tx) finish() {
 	if !t.finished {
 		t.finished = true
 		delete(t.s.open, t.id)
-		if t.s.op != nil {
+		if t.s.op != nil && !t.foreign {
 			t.s.op.TxFinished++
 		}
 	}
@@ -333,7 +443,7 @@ func (t *Tx) finish() {
 func (t *Tx) noteMutation(k Kind) {
 	t.s.mu.Lock()
 	t.mutated = true
-	if op := t.s.op; op != nil {
+	if op := t.s.op; op != nil && !t.foreign {
 		op.MutatingTx[t.id] = true
 		if k == KSet {
 			op.Sets++
@@ -360,6 +470,9 @@ func (t *Tx) Get(key []byte) ([]byte, error) {
 		return nil, err
 	}
 	v, err := t.inner.Get(key)
+	if !t.write {
+		t.s.maybePerturbAfterGet()
+	}
 	return t.hand(v), err
 }
 
@@ -398,7 +511,7 @@ func (t *Tx) Commit() error {
 	err := t.inner.Commit()
 	if err == nil {
 		t.s.mu.Lock()
-		if op := t.s.op; op != nil {
+		if op := t.s.op; op != nil && !t.foreign {
 			op.Commits++
 			if t.mutated {
 				op.CommitsAfterMutation++
